@@ -83,7 +83,7 @@ CHECKS = {
         note=TB + " Schedules are sampled (PCT-style and random), not enumerated."),
     "C19": dict(
         cat="exploration", ref="DESIGN.md §4.9", engine="history-sim",
-        technique="deterministic simulation with fault injection: histories interleaved with scribble faults on every previously returned value; frame/package-state/overlap invariants and re-execution probes",
+        technique="deterministic simulation with fault injection: histories interleaved with scribble faults on every previously returned value, forced collections (pool eviction) and floods of thousands of distinct inputs; frame/package-state/overlap invariants and re-execution probes (also from another receiver state)",
         text="Every value handed back by the library is kept in a ledger and later overwritten (raw memory and public mutators) at arbitrary points of a "
              "seeded history; across each mutation caller slots, other returned values and a raw snapshot of every package-level variable must be bit-identical; "
              "returned values must not overlap each other or caller storage; earlier calls re-issued on bit-copies of their recorded operands must give identical "
@@ -114,7 +114,7 @@ NA = {
 ENGINES = [
     {"name": "history-sim", "path": "/verif/sim/hist",
      "serves_properties": [p for p in ["C01", "C05", "C09", "C11", "C12", "C14", "C15", "C19", "C20"] if p in ENABLED],
-     "kind_free_text": "deterministic seeded simulation of operation histories over a world of reused, aliasable slots with fault injection (rejected inputs, misuse, zero-value receivers, adversarial imports, scribbles on returned values, build configuration); oracles: big.Int reference models, bit-level frame invariant, differential execution"},
+     "kind_free_text": "deterministic seeded simulation of operation histories over a world of reused, aliasable slots with fault injection (rejected inputs, misuse, zero-value receivers, adversarial imports, scribbles on returned values, forced garbage collection = pool eviction, floods of distinct inputs, build configuration); oracles: big.Int reference models, bit-level frame invariant, differential execution"},
 ]
 if "C18" in ENABLED:
     ENGINES.append({"name": "task-scheduler", "path": "/verif/sim/sched", "serves_properties": ["C18"],
